@@ -197,6 +197,14 @@ func (sh *SessionHandler) processFundAccountPayment(pt rhp3.HostPriceTable, s *r
 		return types.ZeroCurrency, types.ZeroCurrency, err
 	}
 
+	// the payment must cover the cost of the RPC
+	fundAmount, underflow = totalAmount.SubWithUnderflow(pt.FundAccountCost)
+	if underflow {
+		err = fmt.Errorf("invalid payment revision: payment %v is less than the fund account cost %v", totalAmount, pt.FundAccountCost)
+		s.WriteResponseErr(err)
+		return types.ZeroCurrency, types.ZeroCurrency, err
+	}
+
 	// verify the renter's signature
 	sigHash := rhp.HashRevision(revision)
 	if !contract.RenterKey().VerifyHash(sigHash, req.Signature) {
@@ -218,7 +226,7 @@ func (sh *SessionHandler) processFundAccountPayment(pt rhp3.HostPriceTable, s *r
 			RenterSignature: req.Signature,
 		},
 		Cost:       pt.FundAccountCost,
-		Amount:     totalAmount.Sub(pt.FundAccountCost),
+		Amount:     fundAmount,
 		Expiration: time.Now().Add(settings.EphemeralAccountExpiry),
 	}
 	// credit the account with the deposit
